@@ -21,7 +21,7 @@ const (
 
 var mCrossFile = Mutant{"findDecoration searches across the files of a package", fDF, "\t\tif !f.sameFile(f.fragments[from], f.fragments[i]) {\n\t\t\t// never attach to a decoration point in another file of the package\n\t\t\treturn\n\t\t}\n", ""}
 var mRawFile = Mutant{"resolvePath passes the raw file field to the resolver", fD, "f.Resolver.ResolveIdent(f.fileOf(id), parent, parentField, id)", "f.Resolver.ResolveIdent(f.file, parent, parentField, id)"}
-var mAvoidGroup = Mutant{"fragment avoids up to the end of the comment group", fDF, "endLine := f.Fset.Position(c.End()).Line", "endLine := f.Fset.Position(cg.End()).Line"}
+var mAvoidGroup = Mutant{"fragment avoids up to the end of the comment group", fDF, "endLine := startLine + strings.Count(c.Text, \"\\n\")", "endLine := f.position(cg.End()).Line"}
 var mDeleteReg = Mutant{"restoreIdent forgets the identifier's registration", fR, "\tr.Dst.Nodes[out.Sel] = n\n", "\tr.Dst.Nodes[out.Sel] = n\n\tdelete(r.Ast.Nodes, r.Dst.Nodes[out.Sel])\n"}
 var mResolveAll = Mutant{"updateImports asks the resolver about every required import", fR, "\tfor path := range packagesInUse {\n\t\tif _, ok := effectiveAlias[path]; ok {", "\tfor path := range importsRequired {\n\t\tif _, ok := effectiveAlias[path]; ok {"}
 var mEndAtPos = Mutant{"fragger BinaryExpr places its End point at the node's start", fFrag, "\t\t// Node: Y\n\t\tif n.Y != nil {\n\t\t\tf.addNodeFragments(n.Y)\n\t\t}\n\n\t\t// Decoration: End\n\t\tf.addDecorationFragment(n, \"End\", n.End())", "\t\t// Node: Y\n\t\tif n.Y != nil {\n\t\t\tf.addNodeFragments(n.Y)\n\t\t}\n\n\t\t// Decoration: End\n\t\tf.addDecorationFragment(n, \"End\", n.Pos())"}
@@ -50,7 +50,7 @@ var mIterStep = Mutant{"InsertAfter does not skip the inserted node", fRew, "\tv
 var mUnsortedFiles = Mutant{"apply Package visits files in map order", fRew, "\t\tsort.Strings(names)\n", "\t\t_ = sort.Strings\n"}
 var mCursorBack = Mutant{"applySpace moves the cursor backwards", fR, "\t\tr.cursor++\n\n\t\tlineOffset := int(r.cursor) - r.base // remember lines are relative to the file base\n\t\tr.lines = append(r.lines, lineOffset)\n\t\tr.cursor++\n\t\tr.cursorAtNewLine = r.cursor", "\t\tr.cursor--\n\n\t\tlineOffset := int(r.cursor) - r.base // remember lines are relative to the file base\n\t\tr.lines = append(r.lines, lineOffset)\n\t\tr.cursor++\n\t\tr.cursorAtNewLine = r.cursor"}
 var mNoAdvanceNL = Mutant{"applyDecorations line break does not advance the cursor", fR, "\t\t\tr.lines = append(r.lines, lineOffset)\n\t\t\tr.cursor++\n\n\t\t\tr.cursorAtNewLine = r.cursor", "\t\t\tr.lines = append(r.lines, lineOffset)\n\n\t\t\tr.cursorAtNewLine = r.cursor"}
-var mAddFileEarly = Mutant{"RestoreFile registers the file before restoring", fR, "\t// restore the file, populate comments and lines\n\tf := r.restoreNode(r.file, \"\", \"\", \"\", false).(*ast.File)\n\n\tfor _, cg := range r.comments {\n\t\tf.Comments = append(f.Comments, cg)\n\t}\n\n\tff := r.Fset.AddFile(r.Name, r.base, r.fileSize())", "\tff := r.Fset.AddFile(r.Name, r.base, r.fileSize())\n\n\t// restore the file, populate comments and lines\n\tf := r.restoreNode(r.file, \"\", \"\", \"\", false).(*ast.File)\n\n\tfor _, cg := range r.comments {\n\t\tf.Comments = append(f.Comments, cg)\n\t}\n"}
+var mAddFileEarly = Mutant{"RestoreFile registers the file before restoring", fR, "\t// restore the file, populate comments and lines\n\tf := r.restoreNode(r.file, \"\", \"\", \"\", false).(*ast.File)\n\n\tfor _, cg := range r.comments {\n\t\tf.Comments = append(f.Comments, cg)\n\t}\n\n\tif len(r.lines) > 1 && r.lines[1] == r.lines[0] {\n\t\t// a newline decoration before anything else in the file starts a line at offset 0, where\n\t\t// the first line starts already: the line table must be strictly increasing\n\t\tr.lines = r.lines[1:]\n\t}\n\n\tff := r.Fset.AddFile(r.Name, r.base, r.fileSize())", "\tff := r.Fset.AddFile(r.Name, r.base, r.fileSize())\n\n\t// restore the file, populate comments and lines\n\tf := r.restoreNode(r.file, \"\", \"\", \"\", false).(*ast.File)\n\n\tfor _, cg := range r.comments {\n\t\tf.Comments = append(f.Comments, cg)\n\t}\n\n\tif len(r.lines) > 1 && r.lines[1] == r.lines[0] {\n\t\t// a newline decoration before anything else in the file starts a line at offset 0, where\n\t\t// the first line starts already: the line table must be strictly increasing\n\t\tr.lines = r.lines[1:]\n\t}"}
 var mPosNotCursor = Mutant{"applyDecorations comment position off by one", fR, "List: []*ast.Comment{{Slash: r.cursor, Text: d}}", "List: []*ast.Comment{{Slash: r.cursor + 1, Text: d}}"}
 var mSpaceNoFresh = Mutant{"applySpace ignores the fresh-line state", fR, "\tif r.cursor == r.cursorAtNewLine {\n\t\tnewlines--\n\t}", "\tif r.cursor == r.cursorAtNewLine && newlines > 1 {\n\t\tnewlines--\n\t}"}
 var mSpaceEmpty3 = Mutant{"applySpace emits three breaks for EmptyLine", fR, "\tcase dst.EmptyLine:\n\t\tnewlines = 2", "\tcase dst.EmptyLine:\n\t\tnewlines = 3"}
@@ -99,22 +99,29 @@ var mPrependClip = Mutant{"Prepend appends to the capacity-clipped argument", "d
 var mAttachedStops = Mutant{"findDecoration gives up at a comment that is already attached", fDF, "\t\tcase *commentFragment:\n\t\t\tif current.Attached != nil {\n\t\t\t\tcontinue\n\t\t\t}\n\t\t\tif direction == 1 {", "\t\tcase *commentFragment:\n\t\t\tif current.Attached != nil {\n\t\t\t\treturn\n\t\t\t}\n\t\t\tif direction == 1 {"}
 var mAdjustedLine = Mutant{"fragment() marks comment lines with //line-adjusted numbers", fDF, "startLine := f.position(c.Pos()).Line", "startLine := f.Fset.Position(c.Pos()).Line"}
 
-var mCgoNamed = Mutant{"updateImports sends the cgo pseudo-import through name selection", fR, "if alias == \".\" || alias == \"_\" || path == \"C\" {", "if alias == \".\" || alias == \"_\" {"}
+var mCgoNamed = Mutant{"updateImports sends the cgo pseudo-import through name selection", fR, "\t\tif path == \"C\" {\n\t\t\t// no conflict checking for the cgo pseudo-import: it is always called C in the code\n\t\t\t// and never has an alias\n\t\t\tr.packageNames[path], aliases[path] = \"C\", \"\"\n\t\t\tcontinue\n\t\t}\n", ""}
+var mCgoEmptyName = Mutant{"updateImports gives the cgo pseudo-import the empty name of dot and blank imports", fR, "r.packageNames[path], aliases[path] = \"C\", \"\"", "r.packageNames[path], aliases[path] = \"\", \"\""}
+var mTextLen = Mutant{"fragment() finds the end of a raw string by the length of its value", fDF, "endLine := startLine + strings.Count(frag.String, \"\\n\")", "endLine := f.position(frag.Pos + token.Pos(len(frag.String))).Line"}
+var mCommentEnd = Mutant{"fragment() finds the end of a comment by its End()", fDF, "endLine := startLine + strings.Count(c.Text, \"\\n\")", "endLine := f.position(c.End()).Line"}
+var mLineAtNodeEnd = Mutant{"applyDecorations starts the line of a newline decoration at the end of the node", fR, "\t\t\tif isNewline && r.cursor != r.cursorAtNewLine {\n", "\t\t\tif false {\n"}
+var mHangOnlyEmpty = Mutant{"link() searches hanging comments of a clause only when it has no body", fDF, "\t\t\tif caseClause || commClause {\n", "\t\t\tif start == end && (caseClause || commClause) {\n"}
+var mKeepLineZero = Mutant{"RestoreFile keeps a first line start that repeats offset 0", fR, "\tif len(r.lines) > 1 && r.lines[1] == r.lines[0] {", "\tif len(r.lines) > 1 && r.lines[1] < r.lines[0] {"}
+var mLocalPath = Mutant{"gotypes resolver gives a path to objects that are not package-level", "decorator/resolver/gotypes/resolver.go", "\tif obj.Parent() != pkg.Scope() {", "\tif false {"}
 
 // SelfTestMutants lists, per property, the mutants its check must catch.
 var SelfTestMutants = map[string][]Mutant{
-	"C01": {mTokenLen, mDropTok, mElseGuard, mFragNoChild, mNoParseComments, mFileScope, mDecKey, mCrossFile, mAvoidGroup, mEndAtPos, mInnerAtToken, mAttachedStops, mAdjustedLine},
-	"C02": {mDecKey, mCloneDropDec, mSpaceLast, mCondDec, mCrossFile, mEndAtPos, mAttachedStops},
-	"C03": {mDropTok, mDropChildDeco, mFragNoChild, mElseGuard, mCrossFile, mAvoidGroup, mAdjustedLine},
+	"C01": {mTokenLen, mDropTok, mElseGuard, mFragNoChild, mNoParseComments, mFileScope, mDecKey, mCrossFile, mAvoidGroup, mEndAtPos, mInnerAtToken, mAttachedStops, mAdjustedLine, mTextLen, mCommentEnd, mLineAtNodeEnd, mHangOnlyEmpty},
+	"C02": {mDecKey, mCloneDropDec, mSpaceLast, mCondDec, mCrossFile, mEndAtPos, mAttachedStops, mHangOnlyEmpty},
+	"C03": {mDropTok, mDropChildDeco, mFragNoChild, mElseGuard, mCrossFile, mAvoidGroup, mAdjustedLine, mTextLen, mCommentEnd, mLineAtNodeEnd},
 	"C04": {mSwapDecs, mEndFlag, mCondDec},
-	"C05": {mSpaceNoFresh, mSpaceEmpty3, mSpaceLast, mNoAdvanceNL},
+	"C05": {mSpaceNoFresh, mSpaceEmpty3, mSpaceLast, mNoAdvanceNL, mLineAtNodeEnd},
 	"C06": {mCloneAlias, mCloneDropDec, mCloneShareDec, mDupFlag, mDeleteReg, mClonePath},
-	"C07": {mNoSort, mIdentNoPeriod, mResolveAll, mCgoNamed},
-	"C08": {mAlwaysSort, mMergeOrder, mIdentNoPeriod, mStoreBeforeErr, mResolveAll, mCgoNamed},
-	"C09": {mAvoidTypo, mForceX, mNoVendorLocal, mFieldPath, mRawFile, mDropPath, mSelName, mSelPathCond, mGoastStopEarly},
+	"C07": {mNoSort, mIdentNoPeriod, mResolveAll, mCgoNamed, mCgoEmptyName},
+	"C08": {mAlwaysSort, mMergeOrder, mIdentNoPeriod, mStoreBeforeErr, mResolveAll, mCgoNamed, mCgoEmptyName},
+	"C09": {mAvoidTypo, mForceX, mNoVendorLocal, mFieldPath, mRawFile, mDropPath, mSelName, mSelPathCond, mGoastStopEarly, mLocalPath},
 	"C10": {mDropPath, mSelName, mSelPathCond, mSelFromAlias, mForceX, mNoVendorLocal, mClonePath},
 	"C11": {mDropMapReg, mLateMapReg, mDropChildDeco, mDeleteReg, mBackMapSel},
-	"C12": {mCursorBack, mNoAdvanceNL, mAddFileEarly, mPosNotCursor, mLinesReuse},
+	"C12": {mCursorBack, mNoAdvanceNL, mAddFileEarly, mPosNotCursor, mLinesReuse, mKeepLineZero, mLineAtNodeEnd},
 	"C13": {mWalkDrop, mWalkOrder, mWalkNoNil},
 	"C14": {mApplyName, mApplyDrop, mIterStep, mUnsortedFiles, mWalkDrop},
 	"C15": {mNilFileGuard, mUnguardChild, mNewPanic, mRawFile},
